@@ -90,6 +90,9 @@ type Bed struct {
 	Hist   *imapc.History
 	Panics *PanicRec
 
+	// KeepContext: Stop does not cancel the context given to Serve (see Stop).
+	KeepContext bool
+
 	ln      net.Listener
 	dir     string
 	ownDir  bool
@@ -270,7 +273,12 @@ func (b *Bed) Stop() error {
 	}
 
 	_ = b.ln.Close()
-	b.cancel()
+
+	// KeepContext: the context given to Serve stays alive, so that what Close alone leaves behind can be looked at
+	// (Destroy cancels it).
+	if !b.KeepContext {
+		b.cancel()
+	}
 
 	return err
 }
@@ -281,6 +289,10 @@ func (b *Bed) Restart() error {
 		return err
 	}
 
+	if b.cancel != nil {
+		b.cancel()
+	}
+
 	b.Hist.Add("== restart ==")
 
 	return b.boot(false)
@@ -289,6 +301,10 @@ func (b *Bed) Restart() error {
 // Destroy stops the server and removes its directories (if the bed created them).
 func (b *Bed) Destroy() {
 	_ = b.Stop()
+
+	if b.cancel != nil {
+		b.cancel()
+	}
 
 	if b.ownDir {
 		_ = os.RemoveAll(b.dir)
